@@ -470,6 +470,25 @@ class Sym:
     def __lshift__(self, k):
         return self * (1 << int(k))
 
+    def __rshift__(self, k):
+        """x >> k for an integer-sorted x: floor division by 2**k."""
+        c = self.const_value()
+        if c is not None:
+            return Sym.const(int(c) >> int(k))
+        return _ctx().divmod(self, 1 << int(k))[0]
+
+    def __and__(self, mask):
+        """x & (2**t - 1) for an integer-sorted x: remainder modulo 2**t."""
+        mask = int(mask)
+        if mask < 0 or (mask + 1) & mask:
+            raise TypeError('bit mask that is not 2**t - 1')
+        c = self.const_value()
+        if c is not None:
+            return Sym.const(int(c) & mask)
+        return _ctx().divmod(self, mask + 1)[1]
+
+    __rand__ = __and__
+
     def __rlshift__(self, b):
         c = self.const_value()
         if c is None:
